@@ -49,11 +49,11 @@ func (c *countingDS) ReadUserTuple(ctx context.Context, store string, f storage.
 // execHigher: `w` is the world over the store AFTER the write (edges / reverse expansion are reported for it,
 // as in mode std); the engines run on a second store that starts as `pre`:
 //
-//	1. every engine (unary and streamed) answers MINIMIZE_LATENCY requests until one of them reaches the
-//	   datastore no more (the iterator cache is warm; entries are stored asynchronously),
-//	2. the write turns the store into `post`,
-//	3. every engine answers one HIGHER_CONSISTENCY request: reported under the keys of the unlimited runs
-//	   (ci wi pi sc sw sp), so the driver checks them per object against the oracle on `post`.
+//  1. every engine (unary and streamed) answers MINIMIZE_LATENCY requests until one of them reaches the
+//     datastore no more (the iterator cache is warm; entries are stored asynchronously),
+//  2. the write turns the store into `post`,
+//  3. every engine answers one HIGHER_CONSISTENCY request: reported under the keys of the unlimited runs
+//     (ci wi pi sc sw sp), so the driver checks them per object against the oracle on `post`.
 func execHigher(w *world, m *fga.Model, pre, post []fga.Tuple, st *hx.Stats) string {
 	out := []string{"ed=" + w.edges(m), "re=" + w.reverseExpand()}
 	ds := &countingDS{OpenFGADatastore: fgarun.Store(pre)}
